@@ -5,7 +5,7 @@ PROPERTY = {
     'functions': ['xdoctest.doctest_example:DocTest.run', 'xdoctest.doctest_example:DocTest._post_run', 'xdoctest.doctest_example:DocTest.anything_ran',
                   'xdoctest.checker:check_got_vs_want',
                   'xdoctest.doctest_part:DoctestPart.check',
-                  'xdoctest.checker:check_output'],
+                  'xdoctest.checker:check_output', 'xdoctest.checker:check_output#relation'],
     'clauses': {
         'P': ['check_got_vs_want returns iff S.V(want, stdout, value): stdout if nothing evaluated, repr(value) if nothing '
               'printed, either one otherwise; repr (not str) of the value; raising repr => ExtractGotReprException',
@@ -18,7 +18,7 @@ PROPERTY = {
               '_post_run / run: failed == (exc_info is not None), skipped == (every part skipped), passed == neither; exactly one of the three'],
         'B': ['doctests built from statements with outputs known by construction: every placement of wants x every correct want form (all output since the previous want / output of the final expression statement / repr of its value) passes; every single corruption of one want (replaced, line appended, line prepended, last line dropped) fails with a got/want error at exactly that want, all statements before it executed, none after (bounded/c02_wants.py)',
                    'the real parser and DocTest.run on every sequence of 1..2 (thorough 3) statement templates plus random longer ones, each run twice, against an oracle written from the property statements: executed statements and their order, verdict, recorded exception and failing part, logged output, renderable report, stdout restored, second run identical, module global untouched (bounded/run_corpus.py)'],
-             'T': ['check_output as the relation S.match (C05)', 'repr as an oracle'],
+             'T': ['check_output as the relation S.match (C05); check_output#relation (the real function against the documented relation: it consults nothing but got, want and the leniency flags) is discharged here too, its callees normalize / _check_match through their contracts (discharged under C05)', 'repr as an oracle'],
     },
     'explanation': 'C02 at the checker/part level: exact (iff) characterisations, one loop invariant for the suffix search.',
 }
